@@ -125,7 +125,7 @@ def blkStep (b : Block) (height : Int) (op : String) : Int × String :=
   if op == "B" then (height, "B=" ++ listToHex ((block .witness).enc b))
   else if op == "N" then (height, "N=" ++ listToHex ((block .base).enc b))
   else if op == "H" then (height, "H=" ++ listToHex (blockHash b.1))
-  else if op == "G" then (height, s!"G={height}")
+  else if op == "G" then (height, if height < 0 then "G=unknown" else s!"G={height}")
   else if op == "L" then (height, "L=" ++ ";".intercalate (txLocs b))
   else if op == "T" then
     (height, "T=" ++ ";".intercalate ((List.range b.2.length).zip b.2 |>.map (fun p => txObs p.2 p.1)))
@@ -154,7 +154,7 @@ def utxStep (t : Tx) (idx : Int) (op : String) : Int × String :=
   if op == "H" then (idx, "H=" ++ listToHex (txid t))
   else if op == "W" then (idx, "W=" ++ listToHex (wtxid t))
   else if op == "X" then (idx, s!"X={if hasWitness t.2 then 1 else 0}")
-  else if op == "I" then (idx, s!"I={idx}")
+  else if op == "I" then (idx, if idx < 0 then "I=unknown" else s!"I={idx}")
   else if op == "M" then (idx, "M=" ++ listToHex ((tx .witness).enc t))
   else if op.startsWith "S" then
     match idxOf? op with
